@@ -311,7 +311,21 @@ def _F24():
     return not (torch.isfinite(l32).all() and abs(x32.item() - x64.item()) < 1e-2)
 
 
-REPLAYS = {'F24': _F24, 'F1-linear': _F1('lin'), 'F1-quadratic': _F1('quad'), 'F1-cubic': _F1('cubic'), 'F2': _F2, 'F3': _F3, 'F4': _F4,
+def _F25():
+    from nflows.transforms.splines import cubic
+    d = torch.float64
+    P = [torch.tensor([[-2.042648389142907, 2.1556574189043207, -2.501295435517151]], dtype=d), torch.tensor([[-2.7315940063331006, -2.219553617055479, 6.522554196539569]], dtype=d),
+         torch.tensor([[3.8766771142191283]], dtype=d), torch.tensor([[5.952021889416101]], dtype=d)]
+    x = torch.tensor([0.2792710028362954], dtype=d, requires_grad=True)
+    ps = [p.clone().requires_grad_(True) for p in P]
+    y, ld = cubic.unconstrained_cubic_spline(x, *ps, inverse=True, tail_bound=2.0)
+    if not (torch.isfinite(y).all() and torch.isfinite(ld).all()):
+        return True
+    g = torch.autograd.grad(y.sum() + ld.sum(), [x] + ps, allow_unused=True)
+    return any(t is not None and not torch.isfinite(t).all() for t in g)
+
+
+REPLAYS = {'F24': _F24, 'F25': _F25, 'F1-linear': _F1('lin'), 'F1-quadratic': _F1('quad'), 'F1-cubic': _F1('cubic'), 'F2': _F2, 'F3': _F3, 'F4': _F4,
            'F6': _F6, 'F9': _F9, 'F12': _F12, 'F13': _F13, 'F16': _F16, 'F17': _F17}
 
 
